@@ -10,12 +10,13 @@ import (
 
 // C15 — Notifier drivers.
 
-// nPub: key "k" has three subscriptions (unbuffered chan int with a receiver thread, buffered
-// chan any guarded by a context, buffered chan string), key "other" has one. The value kind, the
-// order in which the subscriptions were registered, whether the guarded subscription's context
-// and the publish context get cancelled (and when: scheduler), and the map iteration order are
-// all enumerated.
-func nPub(value func() (any, string), cancelSub, cancelPub, preCancelSub bool) func() {
+// nPub: key "k" has four subscriptions - unbuffered chan int with a receiver thread (no context),
+// buffered chan any guarded by context 1, buffered chan string guarded by context 2, buffered
+// chan *int - and key "other" has one. Enumerated: the value kind, the registration order, which
+// of the two subscription contexts get cancelled (by concurrent threads, at any point) or were
+// cancelled beforehand, the publish context (nil / live / cancelled concurrently), the map
+// iteration order, and which ready case reflect.Select takes.
+func nPub(value func() (any, string), mode string) func() {
 	return func() {
 		var n Notifier
 		v, kind := value()
@@ -25,24 +26,47 @@ func nPub(value func() (any, string), cancelSub, cancelPub, preCancelSub bool) f
 		cStr := make(chan string, 2)
 		cOther := make(chan int, 2)
 		cPtr := make(chan *int, 2)
-		subCtx, subCancel := context.WithCancel(context.Background())
-		defer subCancel()
-		// registration order is an enumerated choice: a guarded subscriber at every position
+		ctx1, cancel1 := context.WithCancel(context.Background())
+		defer cancel1()
+		ctx2, cancel2 := context.WithCancel(context.Background())
+		defer cancel2()
 		order := vrt.Choose(3, 0)
 		regs := []func(){
 			func() { n.Subscribe("k", cInt) },
-			func() { n.SubscribeContext(subCtx, "k", cAny) },
-			func() { n.Subscribe("k", cStr) },
+			func() { n.SubscribeContext(ctx1, "k", cAny) },
+			func() { n.SubscribeContext(ctx2, "k", cStr) },
 		}
 		for i := 0; i < 3; i++ {
 			regs[(i+order)%3]()
 		}
 		n.Subscribe("k", cPtr)
 		n.Subscribe("other", cOther)
-		if preCancelSub {
-			vrt.Log("subcancel-call")
-			subCancel()
-			vrt.Log("subcancel-ret")
+		// which subscription contexts are cancelled: bit 0 = ctx1 (chan any), bit 1 = ctx2 (chan string)
+		mask, pre := 0, false
+		pubMode := 0 // 0 nil context, 1 live context, 2 context cancelled concurrently
+		switch mode {
+		case "plain":
+			pubMode = vrt.Choose(2, 0)
+		case "subcancel":
+			mask = 1 + vrt.Choose(3, 0)
+			pubMode = vrt.Choose(2, 0)
+		case "presubcancel":
+			mask, pre = 1+vrt.Choose(3, 0), true
+			pubMode = vrt.Choose(2, 0)
+		case "pubcancel":
+			mask = vrt.Choose(4, 0)
+			pubMode = 2
+		}
+		vrt.Log("config", mask, pre, pubMode)
+		cancels := []context.CancelFunc{cancel1, cancel2}
+		if pre {
+			for i, c := range cancels {
+				if mask&(1<<i) != 0 {
+					vrt.Log("subcancel-call", i+1)
+					c()
+					vrt.Log("subcancel-ret", i+1)
+				}
+			}
 		}
 		var wg sync.WaitGroup
 		giveup := make(chan struct{})
@@ -58,18 +82,26 @@ func nPub(value func() (any, string), cancelSub, cancelPub, preCancelSub bool) f
 				}
 			}
 		}()
-		pubCtx, pubCancel := context.WithCancel(context.Background())
-		defer pubCancel()
-		if cancelSub && !preCancelSub {
-			wg.Add(1)
-			go func() {
-				defer wg.Done()
-				vrt.Log("subcancel-call")
-				subCancel()
-				vrt.Log("subcancel-ret")
-			}()
+		var pubCtx context.Context
+		pubCancel := context.CancelFunc(func() {})
+		if pubMode > 0 {
+			pubCtx, pubCancel = context.WithCancel(context.Background())
 		}
-		if cancelPub {
+		defer pubCancel()
+		if !pre {
+			for i, c := range cancels {
+				if mask&(1<<i) != 0 {
+					wg.Add(1)
+					go func() {
+						defer wg.Done()
+						vrt.Log("subcancel-call", i+1)
+						c()
+						vrt.Log("subcancel-ret", i+1)
+					}()
+				}
+			}
+		}
+		if pubMode == 2 {
 			wg.Add(1)
 			go func() {
 				defer wg.Done()
@@ -84,7 +116,7 @@ func nPub(value func() (any, string), cancelSub, cancelPub, preCancelSub bool) f
 				}
 			}()
 			vrt.Log("pubcall")
-			if cancelPub {
+			if pubMode > 0 {
 				n.PublishContext(pubCtx, "k", v)
 			} else {
 				n.Publish("k", v)
@@ -238,20 +270,20 @@ func init() {
 	}
 	nilVal := func() (any, string) { return nil, "nil" }
 	for _, s := range []struct {
-		name                         string
-		val                          func() (any, string)
-		cancelSub, cancelPub, preSub bool
-		q, t                         int
-		desc                         string
+		name string
+		val  func() (any, string)
+		mode string
+		q, t int
+		desc string
 	}{
-		{"N-pub", vals, false, false, false, 2, 3, "publish 1 / \"s\" to three subscriptions of the key (one unbuffered with a receiver thread, one context-guarded) plus one under another key; registration and map orders enumerated"},
-		{"N-pub-subcancel", vals, true, false, false, 1, 2, "same, the guarded subscription's context is cancelled at any point of the publish"},
-		{"N-pub-presubcancel", vals, true, false, true, 1, 2, "same, the guarded subscription's context was cancelled before the publish"},
-		{"N-pub-pubcancel", vals, false, true, false, 1, 2, "same, PublishContext whose context is cancelled at any point"},
-		{"N-pub-nil", nilVal, false, false, false, 1, 2, "publish of an untyped nil: deliverable exactly to nilable element types"},
+		{"N-pub", vals, "plain", 2, 3, "publish 1 / \"s\" (Publish or PublishContext with a live context) to four subscriptions of the key (one unbuffered with a receiver thread, two context-guarded) plus one under another key; registration and map orders enumerated"},
+		{"N-pub-subcancel", vals, "subcancel", 1, 2, "same; one or both subscription contexts (of an eligible and of an ineligible subscription) are cancelled at any point of the publish"},
+		{"N-pub-presubcancel", vals, "presubcancel", 1, 2, "same; the subscription contexts were cancelled before the publish"},
+		{"N-pub-pubcancel", vals, "pubcancel", 1, 2, "same; the publish context is cancelled at any point, with or without subscription contexts being cancelled too"},
+		{"N-pub-nil", nilVal, "plain", 1, 2, "publish of an untyped nil: deliverable exactly to nilable element types"},
 	} {
 		vrt.Register(&vrt.Scenario{Name: s.name, Props: []string{"C15", "C11:race", "C12:goroutine-leak"}, Quick: s.q, Thorough: s.t, Desc: s.desc,
-			Opts: vrt.Options{MapPerm: true}, Run: nPub(s.val, s.cancelSub, s.cancelPub, s.preSub), Check: notifierPubCheck})
+			Opts: vrt.Options{MapPerm: true}, Run: nPub(s.val, s.mode), Check: notifierPubCheck})
 	}
 	vrt.Register(&vrt.Scenario{Name: "N-reg4", Props: []string{"C15"}, Quick: 0, Thorough: 0, Desc: "every sequence of 4 Subscribe/Unsubscribe operations over 2 keys x 2 channels, probed by publishing after each step",
 		Run: nReg(4), Check: notifierRegCheck})
